@@ -192,8 +192,13 @@ func genC15(m *M, budget int) {
 					// message and DST are adjacent windows of one record: msg's spare capacity runs over dst
 					ml := 1 + m.rng.Intn(60)
 					rec := m.mkBuf("record", m.randBytes(ml+dl), "len=cap")
-					msg = &callerBuf{name: "msg", layout: "window", whole: rec.whole, off: 0, n: ml}
-					dst = &callerBuf{name: "dst", layout: "window", whole: rec.whole, off: ml, n: dl}
+					if m.rng.Intn(2) == 0 {
+						msg = &callerBuf{name: "msg", layout: "window", whole: rec.whole, off: 0, n: ml}
+						dst = &callerBuf{name: "dst", layout: "window", whole: rec.whole, off: ml, n: dl}
+					} else { // DST in front: its spare capacity is the message
+						dst = &callerBuf{name: "dst", layout: "window", whole: rec.whole, off: 0, n: dl}
+						msg = &callerBuf{name: "msg", layout: "window", whole: rec.whole, off: dl, n: ml}
+					}
 					bufs = []*callerBuf{rec}
 					m.class("layout:one_record")
 				}
